@@ -37,7 +37,7 @@ where
         Some(field::Value::Array(field::value::Array::String(values))) => {
             write_string_array_value(writer, values)
         }
-        _ => todo!("unhandled INFO field value: {:?}", value),
+        None => value::write_value(writer, None),
     }
 }
 
@@ -71,7 +71,17 @@ fn write_float_value<W>(writer: &mut W, n: f32) -> io::Result<()>
 where
     W: Write,
 {
-    value::write_value(writer, Some(Value::Float(Some(Float::Value(n)))))
+    match Float::from(n) {
+        Float::Value(n) => value::write_value(writer, Some(Value::Float(Some(Float::Value(n))))),
+        v => Err(invalid_float_value_error(&v)),
+    }
+}
+
+fn invalid_float_value_error(value: &Float) -> io::Error {
+    io::Error::new(
+        io::ErrorKind::InvalidInput,
+        format!("invalid info field float value: {value:?}"),
+    )
 }
 
 fn write_flag_value<W>(writer: &mut W) -> io::Result<()>
@@ -235,15 +245,18 @@ where
     let vs: Vec<_> = values
         .iter()
         .map(|result| {
-            let v = match result? {
+            let result = result?;
+            let result_is_missing = result.is_none();
+
+            let v = match result {
                 Some(n) => Float::from(n),
                 None => Float::Missing,
             };
 
             match v {
                 Float::Value(n) => Ok(n),
-                Float::Missing => Ok(f32::from(v)),
-                _ => todo!("unhandled f32 array value: {:?}", v),
+                Float::Missing if result_is_missing => Ok(f32::from(v)),
+                _ => Err(invalid_float_value_error(&v)),
             }
         })
         .collect::<io::Result<_>>()?;
